@@ -121,6 +121,45 @@ theorem blocked_of_count_zero (k : Key) (hl : k.locked ≠ 0) (hw : ∀ w ∈ k.
   have h2 : w.cmd.count = 0 := hw w (by rw [e]; simp)
   simp [h1, h2]
 
+/-- … and while the oldest holder's own Count is 0 nobody is admitted either (whatever the queued requests ask for) -/
+theorem blocked_of_head_count_zero (k : Key) (hl : k.locked ≠ 0) (hh : ∃ cur, k.holders.head? = some cur ∧ cur.cmd.count = 0) :
+    Blocked k := by
+  intro w rest _
+  obtain ⟨cur, hcur, hc⟩ := hh
+  unfold doLock
+  have h1 : (k.locked == 0) = false := by simpa using hl
+  by_cases hw : w.cmd.count = 0
+  · simp [h1, hw]
+  · have hpos : 0 < k.locked := Nat.pos_of_ne_zero hl
+    by_cases hb : k.locked ≥ 0xffff
+    · simp [h1, hw, hcur, hc, hb]
+    · have : ¬ k.locked ≤ 0 := by omega
+      simp [h1, hw, hcur, hc, hb, this]
+
+/-- a wake pass on a blocked key with something outstanding, stored back: nothing changes for the key, nothing is sent -/
+theorem wake_store_blocked (db : DB) (k : Key) (out : List Reply) (n : Nat) (hn : k.key = n) (hb : Blocked k) (hl : k.locked ≠ 0) :
+    (((wake db k out).1.setKey (wake db k out).2.1).getKey n).holders = k.holders ∧
+    (((wake db k out).1.setKey (wake db k out).2.1).getKey n).waiters = k.waiters ∧
+    (((wake db k out).1.setKey (wake db k out).2.1).getKey n).locked = k.locked ∧ (wake db k out).2.2 = out := by
+  obtain ⟨e1, e2, e3, e4⟩ := wake_blocked db k out hb
+  rw [getKey_setKey' (n := n)]
+  · exact ⟨e1, e4, e2, e3⟩
+  · rw [wake_key]; exact hn
+  · exact isEmpty_of_locked (by rw [e2]; exact hl)
+
+theorem wake_store_locked_pos (db : DB) (k : Key) (out : List Reply) (n : Nat) (hn : k.key = n) (hpos : 0 < k.locked) :
+    0 < (((wake db k out).1.setKey (wake db k out).2.1).getKey n).locked := by
+  have hmono := wake_mono db k out
+  rw [getKey_setKey' (n := n)]
+  · exact Nat.lt_of_lt_of_le hpos hmono
+  · rw [wake_key]; exact hn
+  · exact isEmpty_of_locked (Nat.ne_of_gt (Nat.lt_of_lt_of_le hpos hmono))
+
+/-- the first reply of a step that ends with a wake pass is the step's own reply -/
+theorem wake_head (db : DB) (k : Key) (r : Reply) (out : List Reply) : (wake db k (r :: out)).2.2.head? = some r := by
+  obtain ⟨more, hm⟩ := wake_out db k (r :: out)
+  rw [hm]; rfl
+
 /-! ### a key with a single holder -/
 
 theorem findHolder_single {k : Key} {h : Hold} (hs : k.holders = [h]) : findHolder k h.cmd.lockId = some h := by
@@ -132,11 +171,13 @@ theorem locked_single {k : Key} (hi : KeyInv k) {h : Hold} (hs : k.holders = [h]
 theorem replaceHolder_single (h h' : Hold) : replaceHolder [h] h h' = [h'] := by simp [replaceHolder]
 
 /-- **Re-lock by the holder.** On a key whose only holder `h` bears the command's LockId, a plain LOCK asking for a hold,
-with `depth ≤ Rcount`, `depth < 255` and no priority flag, is answered SUCCED with depth + 1, and afterwards the key's only
-holder is that same hold one level deeper, its terms replaced by the command's. -/
+with `depth ≤ Rcount`, `depth < 255`, no priority flag and Count 0, is answered SUCCED with depth + 1, and afterwards the
+key's only holder is that same hold one level deeper, its terms replaced by the command's. (Since the C04 fix a wake pass
+follows the re-lock; with the new command's Count 0 it admits nobody.) -/
 theorem relock_state (db : DB) (c : Cmd) (h : Hold) (hinv : DBInv db) (hl : db.leader = true) (hflag : c.flag = 0)
     (hprio : has c.tflag TF_PRIORITY = false) (hexp : c.expried > 0)
-    (hs : (db.getKey c.key).holders = [h]) (hid : h.cmd.lockId = c.lockId) (hd : h.depth < 0xff) (hr : h.depth ≤ c.rcount) :
+    (hs : (db.getKey c.key).holders = [h]) (hid : h.cmd.lockId = c.lockId) (hd : h.depth < 0xff) (hr : h.depth ≤ c.rcount)
+    (hc0 : c.count = 0) :
     ∃ h1, ((opLock db c).1.getKey c.key).holders = [h1] ∧ h1.depth = h.depth + 1 ∧ h1.cmd = c ∧
       (opLock db c).2 = [mkReply c RESULT_SUCCED ((db.getKey c.key).locked + 1) (h.depth + 1)] := by
   have hi := getKey_inv hinv c.key
@@ -147,15 +188,22 @@ theorem relock_state (db : DB) (c : Cmd) (h : Hold) (hinv : DBInv db) (hl : db.l
       (by rw [hflag]; exact has_zero' _) (by omega) hfind]
     have hne : ¬ c.expried = 0 := by omega
     simp [hd, hr, hprio, hne]
-  have heff := Slock.C02.C02_relock_effect db c h hinv hb
-  refine ⟨(updateHold db { h with depth := h.depth + 1 } c).2, ?_, by rw [updateHold_depth], updateHold_cmd _ _ _, heff.1⟩
-  unfold opLock
-  rw [hb]
-  simp only [applyLock]
-  rw [getKey_setKey' (n := c.key)]
-  · simp only [hs, replaceHolder_single]
-  · exact getKey_key db c.key
-  · exact isEmpty_of_locked (by simp)
+  have hbk : ∀ (k : Key), k.holders = [(updateHold db { h with depth := h.depth + 1 } c).2] → k.locked ≠ 0 → Blocked k :=
+    fun k e hl => blocked_of_head_count_zero k hl ⟨_, by rw [e]; rfl, by rw [updateHold_cmd]; exact hc0⟩
+  refine ⟨(updateHold db { h with depth := h.depth + 1 } c).2, ?_, by rw [updateHold_depth], updateHold_cmd _ _ _, ?_⟩
+  · unfold opLock
+    rw [hb]
+    simp only [applyLock]
+    rw [(wake_store_blocked _ _ _ c.key ?_ ?_ ?_).1]
+    · simp only [hs, replaceHolder_single]
+    · exact getKey_key db c.key
+    · exact hbk _ (by simp only [hs, replaceHolder_single]) (by simp)
+    · simp
+  · unfold opLock
+    rw [hb]
+    simp only [applyLock, updateHold_depth]
+    rw [(wake_blocked _ _ _ ?_).2.2.1]
+    exact hbk _ (by simp only [hs, replaceHolder_single]) (by simp)
 where
   has_zero' (f : Nat) : has 0 f = false := by unfold has; simp
 
@@ -227,11 +275,18 @@ theorem nohold_succed_free (db : DB) (c : Cmd) (hinv : DBInv db) (hc : c.count =
   have hi := getKey_inv hinv c.key
   unfold opLock at hr
   cases hb : classifyLock db c with
-  | p0a | p0b | stateError | unlockedWaitRefused | timeout | «show» cur | updateEqual h' | relockRefused h' | update h' =>
+  | p0a | p0b | stateError | unlockedWaitRefused | timeout | «show» cur | updateEqual h' | relockRefused h' =>
     rw [hb] at hr
     simp only [applyLock, List.head?_cons, Option.some.injEq] at hr
     rw [← hr] at hres
     simp [mkReply, RESULT_SUCCED, RESULT_TIMEOUT, RESULT_STATE_ERROR, RESULT_UNOWN_ERROR, RESULT_LOCKED_ERROR] at hres
+  | update h' =>
+    rw [hb] at hr
+    simp only [applyLock] at hr
+    rw [wake_head] at hr
+    simp only [Option.some.injEq] at hr
+    rw [← hr] at hres
+    simp [mkReply, RESULT_SUCCED, RESULT_LOCKED_ERROR] at hres
   | relockNoHold h' =>
     have hm := classifyLock_mem db c h' (by rw [hb]; rfl)
     have := classifyLock_relockNoHold_facts db c h' hb
@@ -295,10 +350,9 @@ theorem update_lock_holds (db : DB) (c : Cmd) (hinv : DBInv db) (hflag : c.flag 
     have h1 := hi.pos h' hm
     have h2 := hi.depth_le hm
     simp only [applyLock]
-    rw [getKey_setKey' (n := c.key)]
-    · simp only []; omega
+    apply wake_store_locked_pos
     · exact getKey_key db c.key
-    · exact isEmpty_of_locked (by simp only []; omega)
+    · simp only []; omega
   | grant =>
     simp only [applyLock]
     obtain ⟨_, _, _, _, hlk, _, _, hkey⟩ := grantHold_holders db (db.getKey c.key) c
@@ -366,13 +420,13 @@ def unlockN (db : DB) (c : Cmd) : Nat → DB
 /-- `n` further locks by the holder take the hold from depth `d` to depth `d + n` (up to 255) -/
 theorem lockN_depth (n : Nat) (db : DB) (c : Cmd) (h : Hold) (hinv : DBInv db) (hl : db.leader = true) (hflag : c.flag = 0)
     (hprio : has c.tflag TF_PRIORITY = false) (hexp : c.expried > 0) (hrc : c.rcount = 0xff)
-    (hs : (db.getKey c.key).holders = [h]) (hid : h.cmd.lockId = c.lockId) (hd : h.depth + n ≤ 0xff) :
+    (hs : (db.getKey c.key).holders = [h]) (hid : h.cmd.lockId = c.lockId) (hd : h.depth + n ≤ 0xff) (hc0 : c.count = 0) :
     ∃ h', ((lockN db c n).getKey c.key).holders = [h'] ∧ h'.depth = h.depth + n ∧ h'.cmd.lockId = c.lockId ∧
       DBInv (lockN db c n) ∧ (lockN db c n).leader = true := by
   induction n generalizing db h with
   | zero => exact ⟨h, hs, rfl, hid, hinv, hl⟩
   | succ m ih =>
-    obtain ⟨h1, e1, e2, e3, _⟩ := relock_state db c h hinv hl hflag hprio hexp hs hid (by omega) (by omega)
+    obtain ⟨h1, e1, e2, e3, _⟩ := relock_state db c h hinv hl hflag hprio hexp hs hid (by omega) (by omega) hc0
     have := ih (opLock db c).1 h1 (opLock_inv db c hinv) (by rw [opLock_leader]; exact hl) e1 (by rw [e3]) (by omega)
     obtain ⟨h', f1, f2, f3, f4, f5⟩ := this
     exact ⟨h', f1, by rw [f2, e2]; omega, f3, f4, f5⟩
